@@ -7,7 +7,7 @@ QUICK_N = 1500
 THOROUGH_N = 8000
 SHARD = 130
 TRANSLATORS = ["body_size"]
-COQ_PRELUDE = "From MV Require Import Model.Http1Msg Model.BodySizePrelude Model.Http1Conn Model.Rfc9112.\n"
+COQ_PRELUDE = "From MV Require Import Model.Http1Msg Model.BodySizePrelude Model.Http1Conn Model.Rfc9112 Model.Http1Edit.\n"
 RULE = ("28% request heads and 14% response heads as line lists from a grammar (methods incl. HEAD/CONNECT, origin/absolute/"
         "authority/asterisk targets, HTTP/1.0/1.1, CL/TE/both/duplicates/whitespace and case variants/unknown codings, obs-fold, "
         "bare CR, NUL, invalid names) with 30% byte-level mutations; 8% parse_transfer_encoding / parse_content_length on "
@@ -345,6 +345,7 @@ BAD_NAMES = [b"Bad Name", b"Content-Length ", b"X(Y)", b"Transfer-Encoding\t", b
 VALUES = [b"example.com", b"a", b"text/html", b"keep-alive", b"close", b"100-continue", b"", b"a b", b"a\tb", b"x" * 30, b"\xff\xfe", b"a,b , c"]
 EVIL_VALUES = [b"a\rTransfer-Encoding: chunked", b"a\rb", b"a\x00b", b"a\x0bb", b"\x0ba", b"a\x01", b"a\rContent-Length: 7", b"\rb"]
 WS = [b" ", b"", b"  ", b"\t", b" \t ", b"\x0b", b"\x0c"]
+CE_VALUES = [b"gzip", b"identity", b"deflate", b"x-custom", b"gzip, br", b"utf-8", b"GZIP", b"br", b"", b"none", b"zstd", b"latin-1"]
 
 
 def gen_header_lines(rng, framing=None):
@@ -483,7 +484,12 @@ def gen(rng, n, tier):
     out = []
     for _ in range(n):
         r = rng.random()
-        if r < 0.28:
+        if r < 0.05:
+            hs = gen_head_fields(rng)
+            for _ in range(rng.weighted([(2, 0), (5, 1), (1, 2)])):
+                hs.insert(rng.below(len(hs) + 1), [hx(rng.choice([b"Content-Encoding", b"content-encoding", b"CONTENT-ENCODING"])), hx(rng.choice(CE_VALUES))])
+            out.append({"k": "setc", "resp": rng.chance(0.5), "headers": hs, "value": hx(gen_body(rng))})
+        elif r < 0.28:
             out.append({"k": "req", "lines": [hx(l) for l in gen_req_lines(rng)]})
         elif r < 0.42:
             out.append({"k": "resp", "m": hx(rng.choice(METHODS[:6])), "lines": [hx(l) for l in gen_resp_lines(rng)]})
@@ -548,6 +554,8 @@ def gen_e2e_request(rng, idx):
     hdrs = [b"Host: example.com"]
     for _ in range(rng.randint(0, 2)):
         hdrs.append(rng.choice(NAMES[7:]) + b": " + rng.choice(VALUES[:10]))
+    if rng.chance(0.35):
+        hdrs.append(rng.choice([b"Content-Encoding", b"content-encoding"]) + b": " + rng.choice(CE_VALUES))
     body = b""
     eol = b"\r\n"
     kind = rng.weighted([(70, "clean"), (30, "evil")])
@@ -604,6 +612,8 @@ def gen_e2e_response(rng):
     hdrs = []
     for _ in range(rng.randint(0, 2)):
         hdrs.append(rng.choice(NAMES[7:]) + b": " + rng.choice(VALUES[:10]))
+    if rng.chance(0.35):
+        hdrs.append(rng.choice([b"Content-Encoding", b"content-encoding"]) + b": " + rng.choice(CE_VALUES))
     content = gen_body(rng)
     body, close = b"", False
     fr = rng.weighted([(4, "cl"), (4, "te"), (2, "close"), (1, "none0"), (3, "evil")])
@@ -636,7 +646,7 @@ def gen_e2e_response(rng):
 
 
 POLICIES = ["pass", "pass", "pass", "req-header", "req-body", "req-rechunk", "req-dechunk", "resp-header", "resp-body", "resp-rechunk", "set-response",
-            "stream-req", "stream-resp", "stream-both"]
+            "stream-req", "stream-resp", "stream-both", "req-body", "resp-body", "req-text", "resp-text", "req-prepend", "resp-prepend", "req-raw", "resp-raw"]
 
 
 def gen_e2e(rng):
@@ -854,6 +864,25 @@ def run_impl(case):
     if k == "asm":
         h = mhttp.Headers([(unhx(n), unhx(v)) for n, v in case["headers"]])
         return {"r": _jsonable(_res(lambda: b"".join(assemble.assemble_body(h, [unhx(x) for x in case["chunks"]], unhx(case["trailers"]) or None))))}
+    if k == "setc":
+        from mitmproxy.net import encoding
+        hs = mhttp.Headers([(unhx(n), unhx(v)) for n, v in case["headers"]])
+        value = unhx(case["value"])
+        if case["resp"]:
+            msg = mhttp.Response(http_version=b"HTTP/1.1", status_code=200, reason=b"OK", headers=hs, content=b"old", trailers=None, timestamp_start=0, timestamp_end=None)
+        else:
+            msg = mhttp.Request(host="example.com", port=80, method=b"POST", scheme=b"http", authority=b"", path=b"/", http_version=b"HTTP/1.1",
+                                headers=hs, content=b"old", trailers=None, timestamp_start=0, timestamp_end=None)
+        ce = hs.get("content-encoding")
+        try:
+            enc = hx(encoding.encode(value, ce or "identity"))
+        except (ValueError, TypeError):
+            enc = None
+        try:
+            msg.content = value
+        except Exception as e:
+            return {"exc": type(e).__name__, "enc": enc}
+        return {"enc": enc, "headers": _fields(msg.headers), "raw": hx(msg.raw_content)}
     if k == "ref":
         return _jsonable(run_ref(case))
     if k == "e2e":
@@ -925,6 +954,10 @@ def coq_case(case, obs):
         return f"FwdResp {q} {r} {clines(case['chunks'])} {t}"
     if k == "asm":
         return f"AsmBody {chdrs(case['headers'])} {clines(case['chunks'])} {B(case['trailers'])} {crres(obs['r'], B, 'bytes')}"
+    if k == "setc":
+        if "exc" in obs:
+            return None
+        return f"SetContent {chdrs(case['headers'])} {B(case['value'])} {copt(obs['enc'], B, 'bytes')} {chdrs(obs['headers'])} {B(obs['raw'])}"
     if k == "ref":
         r = obs["r"]
         if case["resp"]:
@@ -952,6 +985,15 @@ def oracle(case, obs):
     k = case["k"]
     if k == "e2e":
         return oracle_e2e(case, obs)
+    if k == "setc":
+        if "exc" in obs:
+            return [{"key": "set-content-raises-" + obs["exc"], "what": f"message.content = ... raised {obs['exc']} for headers {case['headers']}"}]
+        hs = [(unhx(n), unhx(v)) for n, v in obs["headers"]]
+        if not field_values(b"transfer-encoding", hs):
+            cl = field_values(b"content-length", hs)
+            if cl != [b"%d" % len(unhx(obs["raw"]))]:
+                return [{"key": "stale-content-length-after-edit", "what": f"after message.content = <{len(unhx(case['value']))} bytes> the head has Content-Length {cl} "
+                         f"for a raw body of {len(unhx(obs['raw']))} bytes (headers before: {[(unhx(n), unhx(v)) for n, v in case['headers']]})"}]
     return []
 
 
@@ -987,6 +1029,14 @@ def run_e2e(case):
                 flow.request.headers.pop("Accept", None)
             elif p == "req-body":
                 flow.request.content = newbody
+            elif p == "req-text":
+                flow.request.text = newbody.decode("latin-1") + "\u00e9"
+            elif p == "req-prepend":
+                flow.request.content = newbody + (flow.request.get_content(strict=False) or b"")
+            elif p == "req-raw":      # raw_content does not touch the head: the addon restores the framing itself
+                flow.request.raw_content = newbody
+                if "transfer-encoding" not in flow.request.headers:
+                    flow.request.headers["content-length"] = str(len(newbody))
             elif p == "req-rechunk":
                 flow.request.headers.pop("Content-Length", None)
                 flow.request.headers["Transfer-Encoding"] = "chunked"
@@ -1002,7 +1052,7 @@ def run_e2e(case):
                 flow.response.stream = True
         elif hook.name == "response":
             st = flow.response.status_code
-            if p in ("resp-body", "resp-rechunk") and (flow.request.method.upper() == "HEAD" or 100 <= st <= 199 or st in (204, 304)):
+            if p in ("resp-body", "resp-rechunk", "resp-text", "resp-prepend", "resp-raw") and (flow.request.method.upper() == "HEAD" or 100 <= st <= 199 or st in (204, 304)):
                 p = "resp-header"
             if p == "resp-rechunk" and flow.response.http_version != "HTTP/1.1":
                 p = "resp-body"
@@ -1010,6 +1060,14 @@ def run_e2e(case):
                 flow.response.headers["X-Edit"] = "1"
             elif p == "resp-body":
                 flow.response.content = newbody
+            elif p == "resp-text":
+                flow.response.text = newbody.decode("latin-1") + "\u00e9"
+            elif p == "resp-prepend":
+                flow.response.content = newbody + (flow.response.get_content(strict=False) or b"")
+            elif p == "resp-raw":
+                flow.response.raw_content = newbody
+                if "transfer-encoding" not in flow.response.headers:
+                    flow.response.headers["content-length"] = str(len(newbody))
             elif p == "resp-rechunk":
                 flow.response.headers.pop("Content-Length", None)
                 flow.response.headers["Transfer-Encoding"] = "chunked"
@@ -1238,7 +1296,7 @@ def nontrivial(case, obs):
         return obs["kind"] in (1, 2)
     if k in ("te", "cl"):
         return True
-    if k in ("fwdreq", "fwdresp", "asm"):
+    if k in ("fwdreq", "fwdresp", "asm", "setc"):
         return True
     if k == "ref":
         return obs["r"][0] == "ok" and len(obs["r"][1]) > 0 or obs["r"][0] == INVALID
@@ -1258,4 +1316,10 @@ def classify(case, obs):
         tags.append(f"{k}-{obs['r'][0]}")
     elif k == "ref":
         tags.append("ref-" + ("resp-" if case["resp"] else "req-") + obs["r"][0])
+    elif k == "setc":
+        tags.append("setc-exc" if "exc" in obs else "setc-enc-fails" if obs["enc"] is None else "setc-encoded")
+    elif k == "e2e":
+        tags += ["e2e-policy-" + p for p in set(case["policy"])]
+        if b"ontent-" + b"Encoding" in unhx(case["client"]) or b"ontent-encoding" in unhx(case["client"]):
+            tags.append("e2e-req-content-encoding")
     return tags
